@@ -1,7 +1,8 @@
 (* C02 — property theorems. Statements only, each closed by `exact <lemma>`; Print Assumptions beneath;
    non-vacuity examples. *)
 From Coq Require Import List NArith Sorting.Sorted.
-From C02 Require Import Model CaseDefs ProofsNodes ProofsBorders ProofsIterate ProofsFold ProofsLeaf ProofsSearch.
+From C02 Require Import Model ModelTx CaseDefs ProofsNodes ProofsBorders ProofsIterate ProofsFold ProofsLeaf ProofsSearch
+     ProofsTx ProofsTx2 ProofsTx3.
 Import ListNotations.
 Open Scope N_scope.
 
@@ -119,6 +120,85 @@ Theorem C02_token_multiplicity :
     sat q (Doc m1 r1 ts1) = sat q (Doc m2 r2 ts2).
 Proof. exact sat_set. Qed.
 Print Assumptions C02_token_multiplicity.
+
+(* ================= the ACTIVE index by transcription (ModelTx.v) ================= *)
+
+(* TokenLIDs.GetLIDs = sort the queue by (MID, RID, LID) descending + mergeSorted (three de-duplication sites) into
+   the sorted list: whenever the sorted part is strictly ordered and no LID is 2^32-1 (the initial `prev`), the
+   result is strictly ordered again, the queue is empty, and the result holds exactly the LIDs of the old sorted
+   part and of the queue — each once, whatever their multiplicity in the queue. *)
+Theorem C02_tx_get_lids :
+  forall mids rids tl, tl_wf mids rids tl ->
+    tl_wf mids rids (get_lids mids rids tl) /\ t_queue (get_lids mids rids tl) = [] /\
+    (forall x, In x (t_sorted (get_lids mids rids tl)) <-> In x (t_sorted tl) \/ In x (t_queue tl)).
+Proof. exact get_lids_spec. Qed.
+Print Assumptions C02_tx_get_lids.
+
+(* sort.Sort(queueIDs) enters the model as an insertion sort; this is no loss: ANY rearrangement of the queue
+   that is descending in the (MID, RID, LID) order is that very list. *)
+Theorem C02_tx_sort_unique :
+  forall mids rids l l', Permutation.Permutation l l' -> StronglySorted (kge mids rids) l' -> l' = q_sort mids rids l.
+Proof. exact sort_unique. Qed.
+Print Assumptions C02_tx_sort_unique.
+
+(* for EVERY sequence of bulks (AppendIDs + PutLIDsInQueue per token occurrence) and interleaved searches (GetLIDs
+   on the all-token and on the tokens the query touches): what GetLIDs returns for a token is the strictly ordered
+   set of the LIDs of the documents carrying the token — multiplicity collapsed — and for the all-token the LIDs
+   1..n of all documents. *)
+Theorem C02_tx_postings :
+  forall ops t, N.of_nat (length (docs_of ops)) + 1 < 4294967296 ->
+  let st := run ops in
+  let s := t_sorted (get_lids (a_mids st) (a_rids st) (a_tl st t)) in
+  let a := t_sorted (get_lids (a_mids st) (a_rids st) (a_all st)) in
+  StronglySorted (kgt (a_mids st) (a_rids st)) s /\
+  (forall l, In l s <-> 1 <= l /\ exists d, nth_error (docs_of ops) (N.to_nat (l - 1)) = Some d /\ has_tok t d = true) /\
+  StronglySorted (kgt (a_mids st) (a_rids st)) a /\
+  (forall l, In l a <-> 1 <= l /\ l <= N.of_nat (length (docs_of ops))).
+Proof. exact tx_postings. Qed.
+Print Assumptions C02_tx_postings.
+
+(* newInverser / Inverse: for a duplicate-free mapping whose values lie inside the array, Inverse(k) is defined
+   exactly for the mapped values and returns their 1-based position. *)
+Theorem C02_tx_inverser :
+  forall values size k x, NoDup values -> (forall v, In v values -> (N.to_nat v < size)%nat) ->
+    (inverse (new_inversion values size) k = Some x <-> exists j, nth_error values j = Some k /\ x = N.of_nat j + 1).
+Proof. exact inverse_exact. Qed.
+Print Assumptions C02_tx_inverser.
+
+(* C02_search_exact over the transcribed functions: after ANY history of bulks and searches, the search of the
+   active fraction as transcribed (all-token mapping merged by GetLIDs, inverser, IDs through Revert + MIDs/RIDs,
+   getLIDsBorders on them, per-token GetLIDs + inverseLIDs with the minLID/maxLID clamp, OR-fold, merge nodes,
+   iterateEvalTree) returns exactly the specification over the documents ingested so far. *)
+Theorem C02_search_exact_tx :
+  forall ops q from to rev limit wt hist,
+  Forall ok_doc (docs_of ops) -> NoDup (map did (docs_of ops)) -> N.of_nat (length (docs_of ops)) + 1 < 4294967296 ->
+  search_model_tx ops q from to rev limit wt hist = Ok (search_spec (docs_of ops) q from to rev limit wt).
+Proof. exact search_model_tx_exact. Qed.
+Print Assumptions C02_search_exact_tx.
+
+Theorem C02_hist_exact_tx :
+  forall ops q from to rev hist,
+  Forall ok_doc (docs_of ops) -> NoDup (map did (docs_of ops)) -> N.of_nat (length (docs_of ops)) + 1 < 4294967296 ->
+  hist_tx (run ops) q from to rev hist = Ok (hist_spec (docs_of ops) q from to hist).
+Proof. exact hist_tx_script. Qed.
+Print Assumptions C02_hist_exact_tx.
+
+(* non-vacuity: two bulks out of time order, a search in between (so the second bulk's queues merge into
+   non-empty sorted lists), a document repeating a token *)
+Example C02_tx_nonvacuous :
+  let ops := [OBulk [Doc 10 5 [(0, [97]); (1, [98])]; Doc 12 1 [(0, [97]); (0, [97])]];
+              OSearch (QLeaf (PPrefix 0 []));
+              OBulk [Doc 11 7 [(0, [97]); (1, [98]); (0, [97])]; Doc 11 2 [(0, [97])]; Doc 13 4 [(0, [98])]]] in
+  let q := QNAnd (QLeaf (PLit 1 [98])) (QLeaf (PLit 0 [97])) in
+  Forall ok_doc (docs_of ops) /\ NoDup (map did (docs_of ops)) /\
+  t_sorted (get_lids (a_mids (run ops)) (a_rids (run ops)) (a_tl (run ops) (0, [97]))) = [2; 3; 4; 1] /\
+  search_model_tx ops q 0 100 false 10 true 0 = Ok ([(12, 1); (11, 2)], 2) /\
+  search_model_tx ops q 0 100 true 1 true 0 = Ok (search_spec (docs_of ops) q 0 100 true 1 true).
+Proof.
+  split. { repeat constructor; vm_compute; congruence. }
+  split. { cbv [docs_of app map did dmid drid]. repeat (apply NoDup_cons; [simpl; intuition congruence|]). apply NoDup_nil. }
+  repeat split; vm_compute; reflexivity.
+Qed.
 
 (* ex:C02_nonvacuous — six documents, three sharing the timestamp at which the limit cuts; NOT under AND,
    a prefix leaf; both orders; the model equals the specification, the hypotheses of the theorems hold *)
